@@ -66,6 +66,40 @@ CHECKS = {
         note="Trusted: O-de written from the Bundesbank descriptions (reproduces all 70 literals of the repository's tests); "
              "ambiguous regions (13/63/68/76 sub-accounts, 16/23 remainder 1 with digit 0) are undecided and tolerated.",
         design="7/C07"),
+    "C08": dict(
+        technique="generated component tuples (enumerated width-class grid, constructive modes, Hypothesis text) against a "
+                  "reference placement model and O-iban validity",
+        text="For every country (and unknown/position-less ones) component strings of all width classes and character kinds "
+             "are passed to IBAN.generate and BBAN.from_components; the result must be a reference-valid IBAN carrying "
+             "norm(value).zfill(width) at the table position (combined bank code split), or a library error - of the class "
+             "specific to an over-long component when one is over-long. Nothing else may escape.",
+        note="Trusted: reference placement model; success is not demanded where the statement allows an error, success counts "
+             "per country are reported.",
+        design="7/C08"),
+    "C09": dict(
+        technique="generated components / seeded random draws checked by library national validation AND an independent national "
+                  "reference; parse->rebuild round trip on reference-built nationally valid IBANs",
+        text="Whatever the library builds (generate, random with/without registry) for the 19 field countries must pass its own "
+             "national validation and the independent reference, so compute and validate cannot err the same way; components "
+             "read off nationally valid IBANs of every country with positions rebuild the same BBAN outside filler positions.",
+        note="Trusted: O-nat; generator of nationally valid BBANs.",
+        design="7/C09"),
+    "C10": dict(
+        technique="metamorphic testing: enumerated whitespace insertions and generated whitespace/case variants of valid and "
+                  "invalid IBAN/BIC texts",
+        text="Variants differing only in whitespace (27 Unicode whitespace characters, anywhere, doubled) and ASCII letter case "
+             "must get the same verdict in every mode and equal unvalidated objects with a normalised compact form; formatted "
+             "forms are checked against their definition and re-parsed.",
+        note="Trusted: norm() as the statement's normalisation; no reference model needed beyond it (metamorphic).",
+        design="7/C10"),
+    "C11": dict(
+        technique="generated accepted IBANs of all countries / BICs compared field by field with slices of an independently merged "
+                  "country table",
+        text="For reference-built valid IBANs of every bundled country and registry-derived IBANs each of the eight accessors on "
+             "IBAN and BBAN must equal the table slice, fields must be disjoint and inside the BBAN, from_bban must reproduce "
+             "the IBAN; BIC parts must concatenate to the compact form.",
+        note="Trusted: reference table merge (checked against the library by C18).",
+        design="7/C11"),
 }
 
 NOT_YET = "check not built yet in this round (planned in DESIGN.md section 7)"
